@@ -256,9 +256,19 @@ class SqlalchemyRender:
                 order_by = []
                 for f in t.order_by:
                     col0 = self.to_expression(f.field)
-                    if f.direction == 'DESC':
+                    if f.direction.upper() == 'DESC':
                         col0 = col0.desc()
+                    elif f.direction.upper() == 'ASC':
+                        col0 = col0.asc()
+                    if f.nulls.upper() == 'NULLS FIRST':
+                        col0 = sa.nullsfirst(col0)
+                    elif f.nulls.upper() == 'NULLS LAST':
+                        col0 = sa.nullslast(col0)
                     order_by.append(col0)
+
+            if t.modifier is not None:
+                # the frame clause would be dropped silently
+                raise NotImplementedError(f'Window frame: {t.modifier}')
 
             col = sa.over(
                 func,
